@@ -342,6 +342,11 @@ func (e *Env) SimFailure(prefix string, res *simrt.Result) *Failure {
 	} else if res.Deadlock {
 		return failf(prefix+"/deadlock", "", "deadlock: %s", strings.Join(res.Blocked, "; "))
 	}
+	if res.Livelock && !res.MainActive && len(res.Blocked) > 0 && res.Blocked[0] == "step budget and fair round-robin tail exhausted" && res.StepsSinceProgress < 2000 {
+		// tasks were still being woken / finishing right up to the end of the budget: a long
+		// run, not a hang (a real hang ends as a deadlock, or as "only spinning tasks remain")
+		return &Failure{Clause: "", Msg: "step budget exhausted while tasks were still making progress"}
+	}
 	if res.Livelock && res.MainActive {
 		// the step budget ran out while the workload's own driver task was still running
 		// operations: a long history, not a hang. Inconclusive, never a violation.
